@@ -17,6 +17,8 @@ func c20(r *Report) propMeta {
 	rp := sb + "removePending"
 	r.ArgHas("remove-each-signal", rp, "Map.LoadAndDelete", 0, 1, "field:SignalPrice.SignalID", "param:toSubmitPrices|param:signalPrices|param:prices")
 	r.Callers("callers", rp, []string{sp}, []string{sp})
+	// the deferred release only runs if submitPrice returns: its waits must be bounded
+	r.NoTimerInLoop("timeouts-not-rearmed-per-iteration", []string{"grogu/submitter.", "grogu/signaller.", "grogu/querier."}, 20)
 
 	r.Rule("C20.R2", "order: mark pending before hand-off")
 	su := sg + "submitPrices"
